@@ -208,7 +208,9 @@ def gen_request(rng, v, rid, profile):
         opts = {}
         for _ in range(rng.choice([1, 1, 2, 3])):
             k = rng.choice(["numprocesses", "numprocesses", "graceful_timeout", "warmup_delay", "stop_signal",
-                            "stop_children", "send_hup", "uid", "bogus_key", "respawn", "max_retry", "cmd", "cmd"])
+                            "stop_children", "send_hup", "uid", "bogus_key", "respawn", "max_retry", "cmd", "cmd"] +
+                           # profiles whose oracles do not read max_age from the configuration also change it at run time
+                           (["max_age", "singleton"] if profile.get("set_extra") else []))
             opts[k] = {"numprocesses": rng.choice([0, 1, 2, 3, 5, -2, "3", 2.5, True]),
                        "graceful_timeout": rng.choice([0, 0.1, 0.3, 0.5, 2, "x"]),
                        "warmup_delay": rng.choice([0, 0.1, 0.3, None]),
@@ -217,7 +219,11 @@ def gen_request(rng, v, rid, profile):
                        "send_hup": rng.choice([True, False, 1]),
                        "uid": rng.choice([0, "root", "nosuchuser-xyz", 987654, 1.5]),
                        "bogus_key": 1, "respawn": rng.choice([True, False, "no"]),
-                       "max_retry": rng.choice([1, 3, "x"]), "cmd": "worker --name %s --wid $(circus.wid)" % "x"}[k]
+                       "max_retry": rng.choice([1, 3, "x"]), "cmd": "worker --name %s --wid $(circus.wid)" % "x",
+                       # max_age: seconds a worker may live (0 = for ever); `singleton` passes validation with any value and
+                       # is then ignored by Watcher.set_opt (as respawn and max_retry are): `options` shows it unchanged
+                       "max_age": rng.choice([0, 0, 1, 2, 5, True, "1", 1.5]),
+                       "singleton": rng.choice([True, False, 1, "yes"])}[k]
         if "cmd" in opts:
             n = resolve_name(v, props["name"])
             opts["cmd"] = "worker --name %s --wid $(circus.wid)" % (n or "x").replace(" ", "_")
